@@ -240,6 +240,8 @@ impl MemcacheBinaryCodec {
             return Err(Error::new(ErrorKind::Other, "Header body length too large"));
         }
 
+        // a request is parsed from the bytes of its own body only
+        let src = &mut src.split_to(self.header.body_length as usize);
         let result = match FromPrimitive::from_u8(self.header.opcode) {
             Some(binary::Command::Get)
             | Some(binary::Command::GetQuiet)
